@@ -19,8 +19,14 @@ PID = "C20"
 F = facade.FACADE
 
 
-def _inner(seed):
+def _inner(seed, kind="us"):
+    if kind == "coreset":
+        return pl.pool().CoreSet(random_state=seed)       # no classifier argument: exercises match_signature / call_func
     return pl.pool().UncertaintySampling(method="least_confident", random_state=seed)
+
+
+def _kw(kind, clf):
+    return {} if kind == "coreset" else dict(clf=clf, fit_clf=False)
 
 
 def _clf(sym, table, K=2):
@@ -40,23 +46,24 @@ def _eq_nan(env, a, b):
 
 
 # ---------------------------------------------------------------- parallel wrapper
-def _parallel(env, s, n_jobs, cpus, table=None):
+def _parallel(env, s, n_jobs, cpus, table=None, inner_kind="us"):
     P = pl.pool()
     clf = _clf(env.sym, table)
     stubs.CPU_COUNT[0] = cpus
-    inner = _inner(s.seed)
-    w = P.ParallelUtilityEstimationWrapper(query_strategy=_inner(s.seed), n_jobs=n_jobs, random_state=s.seed)
-    ref = inner.query(s.X, s.y, clf=clf, fit_clf=False, candidates=s.cand, batch_size=1, return_utilities=True)
+    inner = _inner(s.seed, inner_kind)
+    kw = _kw(inner_kind, clf)
+    w = P.ParallelUtilityEstimationWrapper(query_strategy=_inner(s.seed, inner_kind), n_jobs=n_jobs, random_state=s.seed)
+    ref = inner.query(s.X, s.y, candidates=s.cand, batch_size=1, return_utilities=True, **kw)
     try:
         if env.sym:
-            out = w.query(s.X, s.y, clf=clf, fit_clf=False, candidates=s.cand, batch_size=1, return_utilities=True)
+            out = w.query(s.X, s.y, candidates=s.cand, batch_size=1, return_utilities=True, **kw)
         else:
             import joblib
             import skactiveml.pool._wrapper as W
             old = W.cpu_count
             W.cpu_count = lambda: cpus
             try:
-                out = w.query(s.X, s.y, clf=clf, fit_clf=False, candidates=s.cand, batch_size=1, return_utilities=True)
+                out = w.query(s.X, s.y, candidates=s.cand, batch_size=1, return_utilities=True, **kw)
             finally:
                 W.cpu_count = old
     except (core.Unencodable, core.PathAbort):
@@ -76,34 +83,35 @@ def _parallel(env, s, n_jobs, cpus, table=None):
               info=dict(got=[int(i) for i in out[0]], ref=[int(i) for i in ref[0]]))
 
 
-def sym_parallel(c, n, mode, n_jobs, cpus):
-    s = pl.gen_scenario(c, n, mode, 1)
-    _parallel(pl.Env(c), s, n_jobs, cpus)
+def sym_parallel(c, n, mode, n_jobs, cpus, inner="us"):
+    s = pl.gen_scenario(c, n, mode, 1, independent=(inner == "us"))
+    _parallel(pl.Env(c), s, n_jobs, cpus, inner_kind=inner)
     c.witness(True, "ran")
 
 
-def replay_parallel(inputs, label, n, mode, n_jobs, cpus):
+def replay_parallel(inputs, label, n, mode, n_jobs, cpus, inner="us"):
     s = pl.real_scenario(inputs, n, mode)
     for seed in [s.seed] + list(range(5)):
         s.seed = seed
         env = pl.Env()
-        _parallel(env, s, n_jobs, cpus, table=inputs.get("__clf__"))
+        _parallel(env, s, n_jobs, cpus, table=inputs.get("__clf__"), inner_kind=inner)
         if label in env.violated:
-            return True, (f"ParallelUtilityEstimationWrapper(UncertaintySampling, n_jobs={n_jobs}) with cpu_count()={cpus}, "
+            return True, (f"ParallelUtilityEstimationWrapper({inner}, n_jobs={n_jobs}) with cpu_count()={cpus}, "
                           f"X={s.X.ravel().tolist()}, labeled={s.lab}, candidates={s.cand if mode != 'rows' else 'rows'}: {label} {env.violated[label]}")
     return False, "not reproduced"
 
 
 # ---------------------------------------------------------------- sub-sampling wrapper
-def _subsample(env, s, b, max_cand, exclude, table=None):
+def _subsample(env, s, b, max_cand, exclude, table=None, inner_kind="us"):
     P = pl.pool()
     clf = _clf(env.sym, table)
-    w = P.SubSamplingWrapper(query_strategy=_inner(s.seed), max_candidates=max_cand, exclude_non_subsample=exclude,
+    kw = _kw(inner_kind, clf)
+    w = P.SubSamplingWrapper(query_strategy=_inner(s.seed, inner_kind), max_candidates=max_cand, exclude_non_subsample=exclude,
                              random_state=s.seed)
     ncand = len(s.cand_set)
     m = min(max_cand, ncand) if isinstance(max_cand, int) else min(math.ceil(ncand * max_cand), ncand)
     try:
-        out = w.query(s.X, s.y, clf=clf, fit_clf=False, candidates=s.cand, batch_size=b, return_utilities=True)
+        out = w.query(s.X, s.y, candidates=s.cand, batch_size=b, return_utilities=True, **kw)
     except (core.Unencodable, core.PathAbort):
         raise
     except Exception as e:
@@ -138,11 +146,11 @@ def _subsample(env, s, b, max_cand, exclude, table=None):
     env.prove(all(i in sub for i in idl), "subsampling_selects_from_subset", info=dict(got=idl, subset=sub))
     # utilities on the subset equal the wrapped strategy's utilities for exactly that subset
     if s.mode == "rows":
-        ref = _inner(s.seed).query(s.X, s.y, clf=clf, fit_clf=False, candidates=s.cand[sub] if len(sub) else s.cand,
-                                   batch_size=1, return_utilities=True)[1]
+        ref = _inner(s.seed, inner_kind).query(s.X, s.y, candidates=s.cand[sub] if len(sub) else s.cand,
+                                               batch_size=1, return_utilities=True, **kw)[1]
         refv = {p: (arrays.raw(arrays.asnd(ref)) if env.sym else np.asarray(ref))[0, j] for j, p in enumerate(sub)}
     else:
-        ref = _inner(s.seed).query(s.X, s.y, clf=clf, fit_clf=False, candidates=sub, batch_size=1, return_utilities=True)[1]
+        ref = _inner(s.seed, inner_kind).query(s.X, s.y, candidates=sub, batch_size=1, return_utilities=True, **kw)[1]
         refv = {p: (arrays.raw(arrays.asnd(ref)) if env.sym else np.asarray(ref))[0, p] for p in sub}
     for p in sub:
         env.prove(_eq_nan(env, ru[0, p], refv[p]), "subsampling_reports_inner_utilities", info=dict(pos=p))
@@ -156,7 +164,7 @@ def _subsample(env, s, b, max_cand, exclude, table=None):
                 env.prove(pl.is_nan_z(v) if env.sym else bool(np.isnan(v)), "subsampling_nan_at_earlier_picks", info=dict(step=t, pos=p))
 
 
-def sym_subsample(c, n, mode, b, max_cand, exclude):
+def sym_subsample(c, n, mode, b, max_cand, exclude, inner="us"):
     # index candidates are drawn from the unlabeled samples (a labeled candidate is dropped from the reduced
     # training set when exclude_non_subsample=True; the property does not fix that case)
     s = pl.gen_scenario(c, n, mode, b, independent=False)
@@ -164,34 +172,34 @@ def sym_subsample(c, n, mode, b, max_cand, exclude):
         # the reduced training set (labeled samples only) would be empty: the wrapped strategy itself rejects an
         # empty X, so there is nothing the wrapper could be transparent to
         raise core.PathAbort("empty reduced training set")
-    _subsample(pl.Env(c), s, b, max_cand, exclude)
+    _subsample(pl.Env(c), s, b, max_cand, exclude, inner_kind=inner)
     c.witness(True, "ran")
 
 
-def replay_subsample(inputs, label, n, mode, b, max_cand, exclude):
+def replay_subsample(inputs, label, n, mode, b, max_cand, exclude, inner="us"):
     s = pl.real_scenario(inputs, n, mode)
     for seed in [s.seed] + ([] if inputs.get("__scripted__") else list(range(20))):
         s.seed = seed
         env = pl.Env()
-        _subsample(env, s, b, max_cand, exclude, table=inputs.get("__clf__"))
+        _subsample(env, s, b, max_cand, exclude, table=inputs.get("__clf__"), inner_kind=inner)
         if label in env.violated:
-            return True, (f"SubSamplingWrapper(UncertaintySampling, max_candidates={max_cand}, exclude_non_subsample={exclude}, "
+            return True, (f"SubSamplingWrapper({inner}, max_candidates={max_cand}, exclude_non_subsample={exclude}, "
                           f"random_state={seed}).query(X={s.X.ravel().tolist()}, labeled={s.lab}, candidates="
                           f"{s.cand if mode != 'rows' else s.cand.ravel().tolist()}, batch_size={b}): {label} {env.violated[label]}")
     return False, "not reproduced"
 
 
-def validate_parallel(inputs, n, mode, n_jobs, cpus):
+def validate_parallel(inputs, n, mode, n_jobs, cpus, inner="us"):
     s = pl.real_scenario(inputs, n, mode)
     env = pl.Env()
-    _parallel(env, s, n_jobs, cpus, table=inputs.get("__clf__"))
+    _parallel(env, s, n_jobs, cpus, table=inputs.get("__clf__"), inner_kind=inner)
     return sorted(env.violated)
 
 
-def validate_subsample(inputs, n, mode, b, max_cand, exclude):
+def validate_subsample(inputs, n, mode, b, max_cand, exclude, inner="us"):
     s = pl.real_scenario(inputs, n, mode)
     env = pl.Env()
-    _subsample(env, s, b, max_cand, exclude, table=inputs.get("__clf__"))
+    _subsample(env, s, b, max_cand, exclude, table=inputs.get("__clf__"), inner_kind=inner)
     return sorted(env.violated)
 
 
@@ -201,6 +209,9 @@ def _cfg_par(tier):
         for mode in ("none", "idx", "rows"):
             for n_jobs, cpus in ((1, 2), (2, 2), (3, 2), (-1, 2), (-1, 8)):
                 out.append(dict(n=n, mode=mode, n_jobs=n_jobs, cpus=cpus))
+    # an inner strategy without classifier arguments (CoreSet)
+    for mode in ("none", "idx", "rows"):
+        out.append(dict(n=3, mode=mode, n_jobs=2, cpus=2, inner="coreset"))
     return out
 
 
@@ -212,6 +223,9 @@ def _cfg_sub(tier):
                 for mc in ((1, 2, 0.5) if tier == "quick" else (1, 2, 3, 0.5, 0.34, 1.0)):
                     for ex in (False, True):
                         out.append(dict(n=n, mode=mode, b=b, max_cand=mc, exclude=ex))
+    for mode in ("none", "idx", "rows"):
+        for ex in (False, True):
+            out.append(dict(n=3, mode=mode, b=2, max_cand=2, exclude=ex, inner="coreset"))
     return out
 
 
@@ -226,7 +240,7 @@ HARNESSES[1].validate = validate_subsample
 BOUNDS = dict(quick="n = 3, candidate modes None / index subsets / 2 feature rows; parallel: n_jobs in {1,2,3,-1} with cpu_count in "
                     "{2,8}; sub-sampling: max_candidates in {1,2,0.5} x exclude_non_subsample x batch_size in {1,2}",
               thorough="n in {3,4}; max_candidates in {1,2,3,0.5,0.34,1.0}",
-              outside="other inner strategies than UncertaintySampling (pre-fitted stub classifier, fit_clf=False); the single-annotator "
+              outside="inner strategies other than UncertaintySampling (pre-fitted stub classifier, fit_clf=False) and CoreSet; the single-annotator "
                       "wrapper's ordering claim is checked under C07")
 ASSUMPTIONS = [
     "joblib.Parallel/delayed by contract (sequential, order preserving); cpu_count() is a parameter of the harness",
